@@ -127,6 +127,26 @@ def cases_for(tier, rng):
                         src=sources(kw={'cm': cmap('CM', **ns)}), K=0, fk=[]))
         # if and unless over the same condition are complementary
         out.append(dict(prog=[If([(c, [T('I')])]), Unless(c, [T('U')])], src=sources(kw=ns), K=0, fk=[]))
+    # a client object that acquires attributes while the template is rendered (a method called by dtml-call computes and stores
+    # them): a name that was undefined -- and counted as false -- earlier in the same rendering is defined from then on
+    def job():
+        return obj('JOB', other=plain('o'),
+                   start=fn('START', plain('ignored'), sets=('result', plain('done'))),
+                   arm=fn('ARM', plain('ignored'), sets=('finish', fn('FINISH', plain('fin-result')))))
+    probes = [[], [If([(N('result'), [T('has')])], [T('none')]), T('|')], [Unless(N('result'), [T('u0')]), T('|')],
+              [Call(N('result')), Call(N('finish')), T('|')], [If([(N('other'), [T('o')]), (N('result'), [T('r')])]), T('|')]]
+    after = [If([(N('result'), [T('has:'), V('result')])], [T('none')]), T('|'), Unless(N('result'), [T('unless')]), T('|'),
+             If([(N('nothing'), [T('x')]), (N('result'), [T('elif')])], [T('else')]), T('|'),
+             If([(N('finish'), [T('f:'), V('finish')])], [T('nof')]), T('|'), Call(N('finish')), T('|'), Call(N('finish'))]
+    for pb in probes:
+        for setters in ([Call(N('start'))], [Call(N('start')), Call(N('arm'))], [Call(N('arm')), T('-'), Call(N('start'))],
+                        [If([(N('start'), [T('s')])])], [Unless(N('arm'), [T('a')]), Call(N('start'))]):
+            inner = pb + setters + [T('|')] + after
+            out.append(dict(prog=[T('<')] + inner + [T('>')], src=sources(clients=[job()], kw={'zz': plain('ZZ')}), K=0, fk=[]))
+            out.append(dict(prog=[T('<')] + inner + [T('>')], src=sources(clients=[obj('C0', w=plain('W')), job()], kw={'zz': plain('ZZ')}),
+                            K=0, fk=[], client_tuple=True))
+            out.append(dict(prog=[T('<'), With(N('job'), inner), T('>')], src=sources(kw={'job': job()}), K=0, fk=[]))
+            out.append(dict(prog=[T('<'), In(N('jobs'), inner), T('>')], src=sources(kw={'jobs': lst('JL', [job()])}), K=0, fk=[]))
     return out
 
 
